@@ -541,6 +541,66 @@ def handleFp (pos : V3 Q) (kind : String) (target probe delta : V3 Q) (impl : Li
     | .panic m, _ => v.withDiff true s!"model panics: {m}"
     | _, none => bad "fp matrix"
 
+/-- f32 `turns(0.5)` = π and `turns(0.25)` = π/2 as exact rationals of their bit patterns. -/
+def halfTurn : Q := F32.toRatD 0x40490fdb
+def quarterTurn : Q := F32.toRatD 0x3fc90fdb
+
+/-- `fprot`: fresh `FirstPerson::new()` / `default()` state, then relative rotations step by step. -/
+def handleFprot (init : String) (steps : List (Q × Q)) (probe delta : V3 Q) (impl : List String) : Verdict :=
+  let v := Verdict.ok ["fprot", init, s!"steps{steps.length}"]
+  if isPanic impl then (v.withDiff true "implementation panics").withSpec true "fp-panics" s!"first-person camera panics: {impl}"
+  else
+  match floats 6 impl with
+  | none => (v.withDiff true "initial state not finite").withSpec true "non-finite-output" "non-finite first-person state"
+  | some (st, rest) =>
+    -- documented fresh state: origin, heading spherical(1, 0, 0) = +x axis; exact
+    let fresh : FirstPerson Q := FirstPerson.new
+    let v := v.withDiff (st.take 3 != V3l fresh.pos || st.drop 3 != [fresh.r, 0, 0]) s!"fresh state: impl {st.map ratApprox}"
+    let v := v.withSpec (st != [0, 0, 0, 1, 0, 0]) "fp-new-state" s!"FirstPerson::{init}() is not at the origin heading along +x: {st.map ratApprox}"
+    let tol : Q := 1 / 100000
+    -- distance on the circle of circumference 2·half
+    let circ (a b : Q) : Q := ratAbs (wrapAngle (a - b) (-halfTurn) halfTurn)
+    let rec go (steps : List (Q × Q)) (cur : Q × Q) (rest : List String) (v : Verdict) : Verdict × List String :=
+      match steps with
+      | [] => (v, rest)
+      | (daz, dalt) :: more =>
+        match floats 2 rest with
+        | some ([az, alt], flag :: rest') =>
+          let m := rotateBy halfTurn quarterTurn cur daz dalt
+          let nearClamp := ratAbs (ratAbs (cur.2 + dalt) - quarterTurn) ≤ tol
+          let v := if ratAbs (ratAbs (cur.1 + daz) - halfTurn) ≤ 10 * tol then tagOnce v "at-seam" else v
+          let v := if ratAbs (cur.1 + daz) > halfTurn then tagOnce v "wrapped" else v
+          let v := if ratAbs (cur.2 + dalt) > quarterTurn then tagOnce v "clamped" else v
+          -- correspondence with the model's wrap / clamp (angles compared on the circle: either side of the seam is the same heading)
+          let v := v.withDiff (circ az m.1 > tol) s!"azimuth after rotate: impl {ratApprox az} model {ratApprox m.1}"
+          let v := v.withDiff (ratAbs (alt - m.2) > tol) s!"altitude after rotate: impl {ratApprox alt} model {ratApprox m.2}"
+          -- spec from the case and the implementation's own previous state
+          let v := v.withSpec (flag != "1") "fp-rotate-not-rotate-to" "rotate(d_az, d_alt) differs from rotate_to(az + d_az, alt + d_alt)"
+          let v := v.withSpec (circ az (cur.1 + daz) > tol || ratAbs az > halfTurn + tol) "fp-rotate-azimuth"
+            s!"azimuth {ratApprox cur.1} + {ratApprox daz} became {ratApprox az} (not the sum wrapped into [-half turn, half turn))"
+          let want := if cur.2 + dalt > quarterTurn then quarterTurn else if cur.2 + dalt < -quarterTurn then -quarterTurn else cur.2 + dalt
+          let v := v.withSpec (!nearClamp && ratAbs (alt - want) > tol || ratAbs alt > quarterTurn + tol) "fp-rotate-altitude"
+            s!"altitude {ratApprox cur.2} + {ratApprox dalt} became {ratApprox alt} (not the sum clamped to a quarter turn)"
+          go more (az, alt) rest' v
+        | _ => (v.withDiff true "rotation step output missing or not finite", [])
+    let (v, tail) := go steps (st.getD 4 0, st.getD 5 0) rest v
+    -- the resulting camera: the same rigidity / origin / heading-axis / translate judgement as for `fp`
+    let w := handleFp ⟨0, 0, 0⟩ "rot-seq" ⟨0, 0, 0⟩ probe delta tail
+    let v := { v with tags := w.tags.filter (fun t => t != "fp" && t != "rot-seq") ++ v.tags }
+    let v := match w.diff with | some d => v.withDiff true d | none => v
+    match w.spec with
+    | some (k, msg) => v.withSpec true k msg
+    | none => v
+
+def parseSteps : Nat → List String → Option (List (Q × Q) × List String)
+  | 0, ts => some ([], ts)
+  | n + 1, ts => do
+    let (ab, r) ← floats 2 ts
+    let (more, r) ← parseSteps n r
+    match ab with
+    | [a, b] => pure ((a, b) :: more, r)
+    | _ => none
+
 def handle' (case impl : List String) : Verdict :=
   match case with
   | "persp" :: f :: a :: n :: fa :: rest =>
@@ -602,6 +662,19 @@ def handle' (case impl : List String) : Verdict :=
         | none => bad "camproj half"
       | _, _ => bad "camproj tail"
     | _, _, _, _, _, _, _ => bad "camproj"
+  | "fprot" :: init :: n :: rest =>
+    match n.toNat? with
+    | none => bad "fprot n"
+    | some n =>
+      match parseSteps n rest with
+      | some (steps, r) =>
+        match take3 r with
+        | some (probe, r2) =>
+          match take3 r2 with
+          | some (delta, _) => handleFprot init steps probe delta impl
+          | none => bad "fprot delta"
+        | none => bad "fprot probe"
+      | none => bad "fprot steps"
   | "fp" :: rest =>
     match take3 rest with
     | some (pos, kind :: r1) =>
